@@ -14,7 +14,7 @@ from typing import Any, Dict, List, Optional
 
 from ..model import iter_own_nodes, FuncInfo
 from ..template import TStr, Hole, FqnS, Sym, Cond, TRUE
-from ..links import PORT_KINDS, lex, toks_text, tok_text, find_member_calls, split_statements, match_close
+from ..links import PORT_KINDS, lex, toks_text, tok_text, find_member_calls, split_statements, match_close, selection_alias
 from ..flow import always_raises
 from .wiring import build_wiring, PROC
 from .c01 import all_links
@@ -117,14 +117,21 @@ def check(ctx):
             call_i = next((i for i, st in enumerate(stmts) if find_member_calls(st)), None)
             des_i = [i for i, st in enumerate(stmts) if any(t == ('id', 'Deselect') for t in st)]
             ok = call_i is not None and len(des_i) == 1 and des_i[0] > call_i
+            why = 'Deselect(identifier) does not follow the forwarded release call (or is missing / conditional)'
             if ok:
                 st = stmts[des_i[0]]
                 txt = [tok_text(t) for t in st]
                 ok = st[0][0] == 'hole' and st[0][1].sym.path[-1:] == ('accessor_target',) and \
                     txt[1:] == ['.', 'Deselect', '(', 'identifier', ')']
+            if ok:
+                # the Deselect must be reached: no return / throw statement in front of it
+                leaving = [i for i, st in enumerate(stmts[:des_i[0]]) if st and st[0] in (('id', 'return'), ('id', 'throw'))]
+                if leaving:
+                    ok = False
+                    why = ('the lambda returns before Deselect(identifier): the statement is unreachable, a client that released '
+                           'stays selected and keeps receiving the out-events')
             run.add('C04.release', MOD, 'initialize_port_release_snippet', f'{role}: ' + toks_text(ln.closure.body)[:100], ok,
-                    'the client is deselected after the release was forwarded' if ok else
-                    'Deselect(identifier) does not follow the forwarded release call (or is missing / conditional)')
+                    'the client is deselected after the release was forwarded' if ok else why)
     run.floor('C04.release', 2)
 
     # ---- C04.deliver -------------------------------------------------------------------------------------------------------------
@@ -132,31 +139,29 @@ def check(ctx):
     for ln in outs:
         stmts = split_statements(ln.closure.body)
         problems = []
-        # auto lockAndData = <target> . CurrentClient ( )
-        var = None
-        if stmts and [tok_text(t) for t in stmts[0][:1]] == ['auto'] and ('p', '=') in stmts[0]:
-            eq = stmts[0].index(('p', '='))
-            var = tok_text(stmts[0][eq - 1])
-            rhs = stmts[0][eq + 1:]
-            rtxt = [tok_text(t) for t in rhs]
-            if not (rhs and rhs[0][0] == 'hole' and rhs[0][1].sym.path[-1:] == ('accessor_target',) and
-                    rtxt[1:] == ['.', 'CurrentClient', '(', ')']):
-                problems.append(f'the current selection is read by `{" ".join(rtxt)}`')
-            elif ln.lhs.port is not None and (rhs[0][1].sym.root, rhs[0][1].sym.path[:-1]) != (ln.lhs.port.root, ln.lhs.port.path):
-                problems.append('the selection is read from another port\'s selector')
-        else:
+        # auto <x> = <target> . CurrentClient ( )   (whether the lock outlives the declaration is C11.deliver-under-lock)
+        al = selection_alias(stmts)
+        var, arrow = None, '->'
+        if al is None:
             problems.append('the selection is not obtained from CurrentClient() first')
+        else:
+            var, akind, target = al
+            arrow = '->' if akind == 'holder' else '.'
+            if target[1].sym.path[-1:] != ('accessor_target',):
+                problems.append(f'the current selection is read from `{tok_text(target)}`')
+            elif ln.lhs.port is not None and (target[1].sym.root, target[1].sym.path[:-1]) != (ln.lhs.port.root, ln.lhs.port.path):
+                problems.append('the selection is read from another port\'s selector')
         deliver = [st for st in stmts if find_member_calls(st)]
         if len(deliver) != 1:
             problems.append(f'{len(deliver)} delivering statements')
-        else:
+        elif var is not None:
             st = deliver[0]
             txt = [tok_text(t) for t in st]
-            want = ['if', '(', var, '->', 'has_value', '(', ')', ')']
+            want = ['if', '(', var, arrow, 'has_value', '(', ')', ')']
             if txt[:8] != want:
                 problems.append('the out-event is delivered without testing that a client holds the claim (has_value())')
             mp = find_member_calls(st)[0][0]
-            if toks_text(mp.obj).replace(' ', '') != f'{var}->value().get().dznPort':
+            if toks_text(mp.obj).replace(' ', '') != f'{var}{arrow}value().get().dznPort':
                 problems.append(f'the out-event is delivered on `{toks_text(mp.obj)}`, not on the selected client\'s port')
         if any(any(tok_text(t) == 'reset' for t in st) for st in stmts[:-1]):
             problems.append('the lock is released before the delivery')
